@@ -8,6 +8,7 @@ LEAN_MODULES = ["ViaProofs.C12"]
 LEMMA_MODULES = ["ViaProofs.C18", "ViaProofs.ConnLemmas"]
 REQUIRED_THEOREMS = ["Via.C12_accept_on_strand", "Via.C12_collections_concurrent", "Via.C12_lock_discipline", "Via.C12_connected_before_reception"]
 LEVEL = "proof"
+LEVEL_TEXT = ('PARTIAL: the hypotheses under which the single-threaded theorems transfer to a thread pool are structural facts re-extracted from the source on every run and discharged in Lean (strand per accepted socket, concurrent collections, lock discipline, connected-before-reception); data races themselves cannot be exhibited by a model: the real server runs with 4-16 io threads, connection churn, re-entrancy counters and ThreadSanitizer (clang). Known finding C12-KF1.')
 RULE = ("structural obligations re-extracted from the source (strand per accepted socket, concurrent collections, lock discipline of "
         "the map) + the real server built with HTTP_THREAD_SAFE and run by 2..16 threads against many loopback connections sending "
         "sequential keep-alive requests; a re-entrancy counter in the handler detects overlapping handlers of one connection, "
